@@ -9,11 +9,11 @@ CHECKS = {
     "C01": ("TLC model check of CasSteps (Inv_C01) + TLC-generated histories replayed on the code, every observation validated by TLC against RunOp of the same spec",
             "5.C01"),
     "C02": ("TLC model check (versions never reused, open never fails) + histories with reopen/checkpoint at every position replayed and validated by TLC (TraceSeq: C02 stability conjunct)", "5.C02"),
-    "C03": ("TLC model check of CasSteps with Crash between any two steps (Inv_C03) + crash image at every libc-call boundary of real runs (LD_PRELOAD), nested, each recovered by the real code and judged by TLC", "5.C03"),
+    "C03": ("TLC model check of CasSteps with Crash between any two steps (Inv_C03) and liveness of recovery under weak fairness of the code's steps (FairSpec: Live_Returns, Live_Reopens) + crash image at every libc-call boundary of real runs (LD_PRELOAD), nested, each recovered by the real code and judged by TLC", "5.C03"),
     "C06": ("hash of every cas/ file at every boundary image and after every operation, judged by TLC (C06 conjunct); model: blobs only appear by rename of flushed bytes", "5.C06"),
     "C07": ("TLC model check (Inv_C07 of CasSteps; Inv_C07/Inv_C04 of CasConc over all interleavings) + directory listing after every operation of every replayed history and at the end of every explored schedule of error-free concurrent programs, compared by TLC with Live(index)", "5.C07"),
     "C08": ("orphan statistics of every crash image and of planted-garbage directories compared by TLC with Scan() over an independent directory decode; clean-up postconditions", "5.C08"),
-    "C09": ("power-loss images (every boundary x every subset of files with unsynced bytes) recovered by the real code and judged by TLC with the C03 oracle", "5.C09"),
+    "C09": ("power-loss images (every boundary x every subset of files with unsynced bytes; contents up to exactly 4 MiB streamed in small pieces) recovered by the real code and judged by TLC with the C03 oracle", "5.C09"),
     "C10": ("every truncation offset / byte flip of the un-checkpointed log, open result compared by TLC with the longest-intact-prefix state", "5.C10"),
     "C12": ("incremental vs from-scratch counts as TLC invariant (Inv_C12) + known_blobs/stats/sizes after every operation and recovery validated by TLC", "5.C12"),
     "C13": ("abort as menu item of every history; TLC compares the full observation and the decoded directory before/after", "5.C13"),
@@ -27,7 +27,7 @@ CHECKS.update({
     "C15": ("TLC deadlock check + liveness (WF) + lock-order invariant on CasConc; controller detects blocked workers in explored schedules of the real code", "5.C15"),
 })
 CHECKS.update({
-    "C11": ("TLC exhaustive orders of open/clone/drop/kill over CasLock (flock race as separate steps) + the printed behaviours replayed with real processes and handles; results, interposer log of losing opens and directory digests validated by TLC (TraceLock)", "5.C11"),
+    "C11": ("TLC exhaustive orders of open/open-by-alias-path/clone/drop/clean-up/kill over CasLock (flock race as separate steps) + the printed behaviours replayed with real processes and handles; results, interposer log of losing opens and directory digests validated by TLC (TraceLock)", "5.C11"),
     "C16": ("codecs and segment framing transcribed in TLA+ (Codec): round-trip and totality model-checked; every enumerated byte string / value / mutation is decoded by the real functions and compared by TLC; counting allocator for the allocation bound", "5.C16"),
     "C17": ("get_range transcribed in TLA+ (RangeRead); the property is an invariant over the whole (L,start,end) cube incl. symbolic 2^32, 2^63, 2^64-1; every point executed on real blobs and compared by TLC", "5.C17"),
     "C18": ("buffered transaction and hash<->path mapping in TLA+ (BlobId): all chunkings model-checked; real transactions for all chunkings x atom sizes and path vectors validated by TLC against an independent BLAKE3", "5.C18"),
